@@ -673,6 +673,19 @@ def _every_type_registered(ctx, R, m, bt, px):
                "" if ok else f"receiver comes from `{ast.unparse(src)[:80] if src is not None else '?'}`", c.lineno)
 
 
+def _walker_of(m, call):
+    """the module-level function or the method (of a class of the module) a call names, when it is a generator"""
+    f_ = None
+    if isinstance(call.func, ast.Name):
+        f_ = m.funcs.get(call.func.id)
+    elif isinstance(call.func, ast.Attribute):
+        cands = [k_.methods[call.func.attr] for k_ in m.classes.values() if call.func.attr in k_.methods]
+        f_ = cands[0] if len(cands) == 1 else None
+    if f_ is not None and any(isinstance(y_, (ast.Yield, ast.YieldFrom)) for y_ in ast.walk(f_.node)):
+        return f_
+    return None
+
+
 def _ancestors(ctx, R, m, bt, px_=None):
     """for each type, every proper prefix of its name components (length >= 1) reaches namespace_index"""
     adds = [c for c in ast.walk(bt.node) if isinstance(c, ast.Call) and isinstance(c.func, ast.Attribute) and c.func.attr in ("add", "update")]
@@ -754,6 +767,42 @@ def _ancestors(ctx, R, m, bt, px_=None):
             if not any("name_components" in _attrs(pyfront.subst_locals(bt.node, e)) for e in src):
                 continue
             good, desc, detail_ = _prefix_loop(bt.node, lp, c.args[0])
+        elif isinstance(lp.iter, ast.Call) and isinstance(lp.target, ast.Name) and isinstance(c.args[0], ast.Name) and c.args[0].id == lp.target.id \
+                and _walker_of(m, lp.iter) is not None and any(isinstance(n_, ast.While) for n_ in _walker_of(m, lp.iter).node.body):
+            # the ancestor names come from a generator that walks up from a namespace name, one component at a time:
+            #     v = <param>;  while v: yield v; v = v.rpartition(".")[0]
+            h = _walker_of(m, lp.iter)
+            hp_ = [a_.arg for a_ in h.node.args.args if a_.arg not in ("self", "cls")]
+            ws = [n_ for n_ in h.node.body if isinstance(n_, ast.While)]
+            ys = [y for y in ast.walk(h.node) if isinstance(y, (ast.Yield, ast.YieldFrom))]
+            good, desc, detail_ = False, True, f"the generator {h.short} is not a walk from a namespace name up to the root"
+            if len(ws) == 1 and len(ys) == 1 and isinstance(ys[0], ast.Yield) and isinstance(ys[0].value, ast.Name) and len(hp_) == 1:
+                w_, v_ = ws[0], ys[0].value.id
+                top_yield = any(isinstance(st_, ast.Expr) and st_.value is ys[0] for st_ in w_.body)
+                inits = [n_.value for n_ in h.node.body if isinstance(n_, ast.Assign) and any(isinstance(t_, ast.Name) and t_.id == v_ for t_ in n_.targets)]
+                init_ok = v_ == hp_[0] or (len(inits) == 1 and isinstance(inits[0], ast.Name) and inits[0].id == hp_[0])
+
+                def _up(st_):
+                    if not isinstance(st_, ast.Assign) or len(st_.targets) != 1:
+                        return False
+                    t_, val = st_.targets[0], st_.value
+                    call_ = val.value if isinstance(val, ast.Subscript) and isinstance(val.slice, ast.Constant) and val.slice.value == 0 else val
+                    is_part = isinstance(call_, ast.Call) and isinstance(call_.func, ast.Attribute) and call_.func.attr == "rpartition" \
+                        and isinstance(call_.func.value, ast.Name) and call_.func.value.id == v_ and call_.args and isinstance(call_.args[0], ast.Constant) and call_.args[0].value == "."
+                    if not is_part:
+                        return False
+                    if isinstance(val, ast.Subscript):
+                        return isinstance(t_, ast.Name) and t_.id == v_
+                    return isinstance(t_, ast.Tuple) and len(t_.elts) == 3 and isinstance(t_.elts[0], ast.Name) and t_.elts[0].id == v_
+                steps = [st_ for st_ in w_.body if _up(st_)]
+                others = [st_ for st_ in ast.walk(w_) if isinstance(st_, (ast.Break, ast.Continue, ast.Return, ast.If))]
+                test_ok = v_ in {x_.id for x_ in ast.walk(w_.test) if isinstance(x_, ast.Name)}
+                arg_ok = len(lp.iter.args) == 1 and isinstance(lp.iter.args[0], ast.Attribute) and lp.iter.args[0].attr == "full_namespace"
+                good = top_yield and init_ok and len(steps) == 1 and not others and test_ok and arg_ok
+                if good and not (w_.body.index(steps[0]) > [i_ for i_, st_ in enumerate(w_.body) if isinstance(st_, ast.Expr) and st_.value is ys[0]][0]):
+                    good = False          # the step comes first: the type's own namespace is skipped - harmless - but so is nothing else; keep the simple shape
+                if not arg_ok:
+                    detail_ = "the walk does not start at the type's own namespace"
         elif isinstance(lp.iter, ast.Call) and isinstance(lp.iter.func, ast.Name) and lp.iter.func.id in m.funcs and isinstance(lp.target, ast.Name) \
                 and isinstance(c.args[0], ast.Name) and c.args[0].id == lp.target.id:
             # the ancestor names come from a module-level generator; the consumer adds each item
